@@ -468,26 +468,8 @@ void DOMRangeImpl::selectNode(const DOMNode* refNode)
         throw DOMRangeException(
             DOMRangeException::INVALID_NODE_TYPE_ERR, 0, fMemoryManager);
     }
-    //First check for the text type node
-    short type = refNode->getNodeType();
-    if((type == DOMNode::TEXT_NODE
-        || type == DOMNode::CDATA_SECTION_NODE
-        || type == DOMNode::COMMENT_NODE
-        || type == DOMNode::PROCESSING_INSTRUCTION_NODE))
-    {
-        //The node itself is the container.
-        fStartContainer = (DOMNode*) refNode;
-        fEndContainer   = (DOMNode*) refNode;
-
-        //Select all the contents of the node
-        fStartOffset = 0;
-        if (type == DOMNode::PROCESSING_INSTRUCTION_NODE)
-            fEndOffset = XMLString::stringLen(((DOMProcessingInstruction*)refNode)->getData());
-        else
-            fEndOffset = ((DOMText *)refNode)->getLength();
-        return;
-    }
-
+    // The range selects the node itself, whatever its type: the parent is the
+    // container of both boundary points (DOM Level 2 Range 2.6)
     DOMNode* parent = refNode->getParentNode();
     if (parent != 0 ) // REVIST: what to do if it IS 0?
     {
